@@ -130,7 +130,12 @@ func (c *Collection) StartDCPFeed(
 	} else {
 		// Register the feed with the collection for future notifications:
 		c.bucket.mutex.Lock()
-		c.bucket.collectionFeeds[c.DataStoreNameImpl] = append(c.bucket.collectionFeeds[c.DataStoreNameImpl], feed)
+		if c.bucket.storeClosed.Load() {
+			// The bucket was shut down while this feed was starting: nobody would ever stop it.
+			feed.events.close()
+		} else {
+			c.bucket.collectionFeeds[c.DataStoreNameImpl] = append(c.bucket.collectionFeeds[c.DataStoreNameImpl], feed)
+		}
 		c.bucket.mutex.Unlock()
 	}
 	go feed.run()
